@@ -18,19 +18,30 @@ BUDGET_S = {'quick': 55, 'thorough': 540}
 KNOBS = {'n_min': 1, 'n_max': 5, 'late_p': 0.3, 'trigger_p': 0.4, 'allow_user': True, 'allow_shutdown': True,
          'kinds': ['crash', 'restart', 'restart', 'partition', 'cutlink', 'crash_master', 'restart_master',
                    'proc_kill', 'user_restart', 'user_shutdown', 'user_restart', 'user_restart_shutdown',
-                   'user_shutdown_restart', 'user_restart_shutdown'],
+                   'user_shutdown_restart', 'user_restart_shutdown', 'proc_kill_closing', 'proc_kill_closing'],
          # processes that take time to stop keep the Master in RESTARTING / SHUTTING_DOWN for a while
          'behaviours': {'*': [{'term': 3.0}]},
-         'apps': {'n_apps': (1, 3), 'n_progs': (1, 3), 'startsecs': (0, 8), 'stopwaitsecs': (4, 9)}}
+         'apps': {'n_apps': (1, 3), 'n_progs': (1, 3), 'startsecs': (0, 8), 'stopwaitsecs': (4, 9),
+                  'supvisors_failure_p': 0.25}}
+
+
+# a quarter of the cases: a process whose crash shuts down / restarts Supvisors dies while the Master goes through
+# ELECTION (a peer has just come back) - the documented ELECTION -> SHUTTING_DOWN edge with slaves still in ELECTION
+CLOSING_KNOBS = {'n_min': 2, 'n_max': 4, 'late_p': 0.0, 'trigger_p': 0.0, 'fence': 'false',
+                 'synchro': ['LIST', 'TIMEOUT'], 'kinds': ['proc_kill_closing'], 'n_dist': [1, 1, 2],
+                 'behaviours': {'*': [{'term': 3.0}]},
+                 'apps': {'n_apps': (1, 2), 'n_progs': (2, 4), 'startsecs': (0, 3), 'stopwaitsecs': (4, 9),
+                          'supvisors_failure_p': 0.7, 'managed_p': 1.0}}
 
 
 def plan(tier, seed):
-    return [{'seed': seed * 1000003 + i} for i in range(COUNT[tier])]
+    return [{'seed': seed * 1000003 + i, 'family': 'closing-in-election' if i % 4 == 3 else 'general'}
+            for i in range(COUNT[tier])]
 
 
 def run_case(case):
     mon = StateGraphMonitor()
-    run = Run(case, KNOBS, [mon])
+    run = Run(case, CLOSING_KNOBS if case.get('family') == 'closing-in-election' else KNOBS, [mon])
     violations = run.execute()
     sig = None
     if mon.transitions:
